@@ -26,6 +26,9 @@ Print Assumptions C15_started_iff_newdefault.
 Theorem C15_source_facts :
   janitor_guard_map = "cfg.CleanupInterval > 0"%string
   /\ janitor_guard_mapof = "cfg.CleanupInterval > 0"%string
+  (* a tick is a call of DeleteExpired on the inner object (callback read at that time) *)
+  /\ janitor_tick_map = "c.DeleteExpired()"%string
+  /\ janitor_tick_mapof = "c.DeleteExpired()"%string
   (* the goroutine references only the inner object and the config: not the wrapper *)
   /\ ~ In finalizer_target_map janitor_captures_map
   /\ ~ In finalizer_target_mapof janitor_captures_mapof
